@@ -189,7 +189,7 @@ def compare(ctx, iface, recipe, wrapper, depth, req_desc, bare, wrapped, count, 
         ctx.violation(f"wrapped-protocol|{w}|{iface}", case, d)
 
 
-def in_flight_through_wrappers(ctx, wrapper, depth, nreq, nchunks):
+def in_flight_through_wrappers(ctx, wrapper, depth, nreq, nchunks, pre=None):
     """2-4 requests in flight together through ONE wrapped application whose inner bodies have several chunks (WSGI: all calls
     made first, the iterables consumed in rotation; ASGI: tasks): each client gets what it gets alone (vf/inflight.py)"""
     import asyncio
@@ -220,7 +220,7 @@ def in_flight_through_wrappers(ctx, wrapper, depth, nreq, nchunks):
         for _ in range(depth):
             app = m(app)
         reqs = [drivers.Req(path=b"/r%d" % j) for j in range(nreq)]
-        inflight.check_group(ctx, iface, app, reqs, "wrapped-app", {"in_flight_through": wrapper, "depth": depth, "requests": nreq, "chunks": nchunks})
+        inflight.check_group(ctx, iface, app, reqs, "wrapped-app", {"in_flight_through": wrapper, "depth": depth, "requests": nreq, "chunks": nchunks}, pre=pre)
 
 
 def overlapped_requests(ctx, rng):
@@ -414,7 +414,12 @@ def run(ctx):
             for nreq in (2, 4):
                 for nchunks in (1, 4):
                     if ctx.mine(depth * 16 + nreq * 2 + nchunks):
-                        in_flight_through_wrappers(ctx, wrapper, depth, nreq, nchunks)
+                        if nreq == 2:
+                            from vf import inflight
+                            with inflight.preemptor() as pre:
+                                in_flight_through_wrappers(ctx, wrapper, depth, nreq, nchunks, pre)
+                        else:
+                            in_flight_through_wrappers(ctx, wrapper, depth, nreq, nchunks)
                         ctx.case_enum(True)
     for i, (rec, rq) in enumerate(todo):
         nt = run_case(ctx, rec, rq, rng)
@@ -427,7 +432,12 @@ def replay(ctx, case):
     import os
     contracts.arm_list_headers()
     if "in_flight_through" in case:
-        in_flight_through_wrappers(ctx, case["in_flight_through"], case["depth"], case["requests"], case["chunks"])
+        if case.get("preempted"):
+            from vf import inflight
+            with inflight.preemptor() as pre:
+                in_flight_through_wrappers(ctx, case["in_flight_through"], case["depth"], case["requests"], case["chunks"], pre)
+        else:
+            in_flight_through_wrappers(ctx, case["in_flight_through"], case["depth"], case["requests"], case["chunks"])
         ctx.case(1)
         return
     r = case["recipe"]
